@@ -32,6 +32,7 @@ FILES = ['pytableaux/lang/parsing.py', 'pytableaux/lang/collect.py', 'pytableaux
 STORES = {
     'empty': {},
     'F1,G2': {(0, 0): 1, (1, 0): 2},
+    'F3': {(0, 0): 3},
 }
 
 
@@ -104,6 +105,14 @@ def plan(ctx):
                         units.append((notation, n, 'reduced', store, (ch,), budget))
                 else:
                     units.append((notation, n, 'reduced', store, (), budget))
+        # deep inputs over a tiny alphabet
+        tiny = parsex.ALPHABETS[(notation, 'tiny')]
+        deep = (9 if notation == 'polish' else 7) if ctx.quick else (10 if notation == 'polish' else 9)
+        for n in range(N + 1, deep + 1):
+            k = 1 if n <= 7 else (2 if n <= 9 and notation == 'polish' else 3)
+            import itertools as _it
+            for head in _it.product(tiny, repeat=k):
+                units.append((notation, n, 'tiny', 'empty', tuple(head), budget))
         if not ctx.quick:
             fa = parsex.ALPHABETS[(notation, 'full')]
             for ch in fa:
@@ -152,6 +161,8 @@ def run(ctx):
         bounds=dict(polish_length=5 if ctx.quick else 6, standard_length=4 if ctx.quick else 5,
                     alphabet={k[0]: ''.join(v) for k, v in parsex.ALPHABETS.items() if k[1] == 'reduced'},
                     thorough_full_alphabet='length 4' if not ctx.quick else None,
+                    deep_tiny_alphabet=dict(polish='KNVxFGm up to length %d' % (9 if ctx.quick else 10),
+                                            standard='&LxFGa up to length %d' % (7 if ctx.quick else 9)),
                     declarations=list(STORES)),
         functions_executed=['DefaultParser.__call__/_read*', 'PolishParser._read_operated',
                             'StandardParser._read_operated/_read_infix_predicated/_read_from_paren_open',
